@@ -609,17 +609,28 @@ func fieldComps(structT types.Type, field string) (types.Type, []Comp, int) {
 // ghostFieldHeap: the heap of a declared ghost field (integer-valued ghost state per object), or "".
 func ghostFieldHeap(structT types.Type, field string) string {
 	k := typeKey(structT)
-	if ghostFieldReg[k+"."+field] {
+	if ghostFieldReg[k+"."+field] != "" {
 		return "P!" + k + "!.$" + field
 	}
 	return ""
+}
+
+func ghostFieldSort(structT types.Type, field string) string {
+	if ghostFieldReg[typeKey(structT)+"."+field] == "seq" {
+		return "(Array Int (Array Int Int))"
+	}
+	return "(Array Int Int)"
 }
 
 func (st *State) loadField(heap map[string]string, ref string, structT types.Type, field string) Val {
 	ft, comps, _ := fieldComps(structT, field)
 	if ft == nil {
 		if gh := ghostFieldHeap(structT, field); gh != "" {
-			return vInt(sSel(st.heapIn(heap, gh, "(Array Int Int)"), ref), nil)
+			srt := ghostFieldSort(structT, field)
+			if srt != "(Array Int Int)" {
+				return vRaw(sSel(st.heapIn(heap, gh, srt), ref), "(Array Int Int)")
+			}
+			return vInt(sSel(st.heapIn(heap, gh, srt), ref), nil)
 		}
 	}
 	if ft == nil {
@@ -704,9 +715,14 @@ func (st *State) allocObject(t types.Type) string {
 	sort.Strings(gfs)
 	for _, f := range gfs {
 		gh := "P!" + typeKey(t) + "!.$" + f
-		h := st.heapGet(gh, "(Array Int Int)")
+		srt := ghostFieldSort(t, f)
+		zero := "0"
+		if srt != "(Array Int Int)" {
+			zero = "((as const (Array Int Int)) 0)"
+		}
+		h := st.heapGet(gh, srt)
 		st.noteWrite(gh, ref)
-		st.heapSet(gh, "(Array Int Int)", sStore(h, ref, "0"), ref)
+		st.heapSet(gh, srt, sStore(h, ref, zero), ref)
 	}
 	if s, ok := t.Underlying().(*types.Struct); ok {
 		for i := 0; i < s.NumFields(); i++ {
